@@ -169,6 +169,18 @@ PROPS["C04"] = {
     "level_note": LEVEL_NOTE_NOISE,
 }
 
+PROPS["C08"] = {
+    "pkgs": ["mailbox"],
+    "level": "exploration",
+    "quick_budget": 60, "thorough_budget": 1200,
+    "rule": "After a real XX or KK handshake, 0..5000 records per direction (key rotation every 500 records, so up to 10 rotations), the order of {A writes, B writes, B reads, A reads} drawn from the tape, record sizes 0, 1, 16..215 and 65535, equal plaintext throughout or distinct ones. Oracles: the (key, nonce) state before each record is new for that direction and advances; ciphertext records are pairwise distinct; every record decrypts to exactly what was written; no 16-byte window of the plaintexts or of the auth payload occurs in the recorded wire bytes (handshake included)." + SIG_RULE,
+    "assumptions": ["(key, nonce) freshness is observed white-box at record granularity (before/after WriteMessage); a reuse inside a record would still show as a state that does not advance or as a decryption failure"],
+    "components": NOISE_COMPONENTS,
+    "expected_probes": ["c08.many-rotations", "c08.records"],
+    "level_text": EXPL_TEXT + " This property has little scheduling in it; the simulator makes long histories cheap.",
+    "level_note": LEVEL_NOTE_NOISE,
+}
+
 # Properties that are pure functions of their input: no schedule, clock, fault
 # or interleaving enters them, so deterministic simulation has nothing to decide.
 NOT_APPLICABLE = {
